@@ -253,6 +253,46 @@ def catalogue():
     # --- zeros / ones with traced dtype
     add('ones_like', lambda x: A.ones_like(x) * x + A.zeros_like(x), [(V, 'R')], ['construct', 'refused'])
     add('ones_shape', lambda x: A.ones((2, 3), dtype=x) * x, [(V, 'R')], ['construct', 'refused'])
+    # --- degenerate extents and higher ranks of the elementwise / reduction / product operations
+    alt = [(1,), (), (2, 1, 2), (1, 3)]
+    k = 0
+    for pr in list(P):
+        if 'unary' in pr.tags and 'refused' not in pr.tags and len(pr.ins) == 1 and pr.ins[0][0] == V and ':' not in pr.name:
+            shp = alt[k % 4]; k += 1
+            add('%s@%s' % (pr.name, 'x'.join(map(str, shp)) or 'scalar'), pr.f, [(shp, pr.ins[0][1])], list(pr.tags) + ['shapevar'], pr.maxD, pr.guard)
+    for nm, op in [('add', lambda a, b: a + b), ('sub', lambda a, b: a - b), ('mul', lambda a, b: a * b), ('div', lambda a, b: a / b)]:
+        dd = 'nz' if nm == 'div' else 'R'
+        add(nm + '@1', op, [((1,), 'R'), ((1,), dd)], ['binary', 'shapevar'])
+        add(nm + ':bcast_1_vs_n', op, [((1,), 'R'), (V, dd)], ['binary', 'bcast', 'shapevar'])
+        add(nm + ':bcast_n_vs_1', op, [(V, 'R'), ((1,), dd)], ['binary', 'bcast', 'shapevar'])
+        add(nm + ':bcast_1n_n1', op, [((1, 3), 'R'), ((3, 1), dd)], ['binary', 'bcast', 'shapevar'])
+        add(nm + ':bcast_rank3', op, [((2, 1, 2), 'R'), ((3, 1), dd)], ['binary', 'bcast', 'shapevar'])
+        add(nm + ':bcast_rank3_scalar', op, [((2, 1, 2), 'R'), (S, dd)], ['binary', 'bcast', 'shapevar'])
+    add('sum@1', lambda x: A.sum(x), [((1,), 'R')], ['reduce', 'shapevar'])
+    add('sum@1x1', lambda X: A.sum(X), [((1, 1), 'R')], ['reduce', 'shapevar'])
+    add('sum:axis0@1x3', lambda X: A.sum(X, axis=0), [((1, 3), 'R')], ['reduce', 'axis', 'shapevar'])
+    add('sum:axis-1@3x1', lambda X: A.sum(X, axis=-1), [((3, 1), 'R')], ['reduce', 'axis', 'shapevar'])
+    add('sum:rank3', lambda X: A.sum(X), [((2, 1, 2), 'R')], ['reduce', 'shapevar'])
+    add('sum:axis0_of_3d', lambda X: A.sum(X, axis=0), [((2, 3, 2), 'R')], ['reduce', 'axis', 'shapevar'])
+    add('sum:axis-1_of_3d', lambda X: A.sum(X, axis=-1), [((2, 3, 2), 'R')], ['reduce', 'axis', 'shapevar'])
+    add('prod@1', lambda x: A.prod(x), [((1,), 'nz')], ['reduce', 'shapevar'])
+    add('trace@1x1', lambda X: A.trace(X), [((1, 1), 'R')], ['reduce', 'shapevar'])
+    add('dot:vv@1', lambda a, b: A.dot(a, b), [((1,), 'R'), ((1,), 'R')], ['dot', 'shapevar'])
+    add('dot:row_col', lambda a, b: A.dot(a, b), [((1, 3), 'R'), ((3, 1), 'R')], ['dot', 'shapevar'])
+    add('dot:col_row', lambda a, b: A.dot(a, b), [((3, 1), 'R'), ((1, 3), 'R')], ['dot', 'shapevar'])
+    add('dot:row_v', lambda a, b: A.dot(a, b), [((1, 3), 'R'), (V, 'R')], ['dot', 'shapevar'])
+    add('outer@1', lambda a, b: A.outer(a, b), [((1,), 'R'), (V, 'R')], ['dot', 'shapevar'])
+    add('inv@1x1', lambda X: A.inv(X + 3.0), [((1, 1), 'pos')], ['linalg', 'shapevar'])
+    add('solve@1x1', lambda X, B: A.solve(X + 3.0, B), [((1, 1), 'pos'), ((1, 2), 'R')], ['linalg', 'shapevar'])
+    add('det@1x1', lambda X: A.det(X + 3.0), [((1, 1), 'pos')], ['linalg', 'shapevar'])
+    add('index:x[0]@1', lambda x: x[0] * 1.5, [((1,), 'R')], ['index', 'shapevar'])
+    add('index:X[0]@1x3', lambda X: X[0] * 1.5, [((1, 3), 'R')], ['index', 'shapevar'])
+    add('index:X[:,0]@3x1', lambda X: X[:, 0] * 1.5, [((3, 1), 'R')], ['index', 'shapevar'])
+    add('index:X[1,:,0]@rank3', lambda X: X[1, :, 0] * 1.5, [((2, 3, 2), 'R')], ['index', 'shapevar'])
+    add('index:X[...,1]@rank3', lambda X: X[..., 1] * 1.5, [((2, 3, 2), 'R')], ['index', 'shapevar'])
+    add('X.T@rank3', lambda X: X.T * 1.5, [((2, 3, 2), 'R')], ['index', 'shapevar'])
+    add('reshape:to_scalar', lambda x: A.reshape(x, ()) * 2.0, [((1,), 'R')], ['reshape', 'shapevar'])
+    add('reshape:rank3', lambda X: A.reshape(X, (3, 4)) * 2.0, [((2, 3, 2), 'R')], ['reshape', 'shapevar'])
     return P
 
 
